@@ -252,7 +252,7 @@ func (w *worker) Exec(ctx context.Context, qc *query_context.Context) error {
 	if (r.c.Edge == "S-at-edge" && role == roleS) || (r.c.Edge == "P-at-edge" && role == roleP) {
 		// end right when the threshold timer of this call fires
 		target := startT + r.thr - time.Duration(r.c.EdgeDeltaUs)*time.Microsecond
-		if d := target - now() - 120*time.Microsecond; d > 0 {
+		if d := target - now() - 60*time.Microsecond; d > 0 {
 			time.Sleep(d)
 		}
 		for now() < target {
